@@ -16,6 +16,12 @@ def run(chk):
         'distinct_nontrivial = distinct (call, abstract pre-state) pairs '
         'whose step changed the node table, a count or the order')
     shards = []
+    # judge sensitivity: two design errors that TLC must refute (else the invariants are vacuous)
+    for cfg in ('MC_Core2_neg_GCClearsCache.cfg', 'MC_Core2_neg_FoaIncrefsHigh.cfg'):
+        r = common.tlcrun.model_check('MC_Core2', cfg, 'neg', timeout=600)
+        if 'is violated' not in r['out']:
+            raise common.tlcrun.MachineryError('negative configuration %s was not refuted' % cfg)
+        chk.extra.setdefault('negative_configurations_refuted', []).append(cfg)
     shards += common.stage_graph(
         chk, 'MC_Core2', 'MC_Core2.cfg' if q else 'MC_Core2_deep.cfg',
         ['a', 'b'], 2, limit=1500 if q else None, need_actions=CORE_ACTIONS)
